@@ -222,7 +222,7 @@ class Cold:
                     with open(p, "rb") as f:
                         b = f.read()
                     out[suffix + "_sha"] = sha_bytes(b)
-                    out[suffix + "_len"] = len(b.decode())
+                    out[suffix + "_len"] = len(b)
                 else:
                     out[suffix + "_sha"] = None
                     out[suffix + "_len"] = None
@@ -473,7 +473,7 @@ def execute(spec, ops, workdir, cold, stats=None, log=None):
                 raise HarnessError(f"unknown op {kind}")
             records.append(rec)
             log.append(rec)
-        return records, divergences, sim.clock - 1_000_000_000
+        return records, divergences, int(sim.clock - 1_000_000_000)
     finally:
         sim.destroy()
 
@@ -544,6 +544,17 @@ def gen_pge(rng, sc, n=4):
     return "\n=====\n".join(exs) if exs else None
 
 
+def gen_dt(rng):
+    """Simulated seconds between two events: often sub-second (mtimes that
+    differ only below one second are still 'older')."""
+    r = rng.random()
+    if r < 0.35:
+        return rng.randint(1, 999) / 1000.0
+    if r < 0.5:
+        return rng.randint(1000, 2999) / 1000.0
+    return float(rng.randint(3, 100))
+
+
 def gen_run(rng, tier):
     """Draw scenario + history.  Returns (spec, ops, meta)."""
     use_imports = rng.random() < 0.35
@@ -587,14 +598,14 @@ def gen_run(rng, tier):
     ops = []
 
     def construct():
-        op = {"op": "construct", "cfg": rng.choice(cfgs), "dt": rng.randint(1, 100)}
+        op = {"op": "construct", "cfg": rng.choice(cfgs), "dt": gen_dt(rng)}
         if faults_on and rng.random() < 0.35:
             op["fault"] = gen_fault(rng, fault_kinds, pge is not None)
         return op
 
     for _ in range(n - 1):
         r = rng.random()
-        dt = rng.randint(1, 100)
+        dt = gen_dt(rng)
         if r < 0.45:
             ops.append(construct())
         elif r < 0.60 and "edit" in enabled:
@@ -805,11 +816,16 @@ def sweep_scenarios(tier):
         sc = pool.import_scenario(rng)
     out.append(("imports-chain", {"versions": sc["versions"][:1], "pge": sc["pge"],
                                   "recognizers": None, "probes": sc["probes"][:6]}))
-    fams = ["nullable"] if tier == "quick" else [
-        "nullable", "expr", "stmt", "lexamb", "rec", "amb", "dyn", "random"]
+    fams = ["nullable-u"] if tier == "quick" else [
+        "nullable-u", "nullable", "expr", "stmt", "lexamb", "rec", "amb", "dyn", "random"]
     for fam in fams:
         r = random.Random(100 + len(out))
+        if fam == "nullable-u":
+            # non-ASCII terminal texts: byte offsets inside multi-byte characters
+            # become reachable if a table is ever written un-escaped
+            pool.FAMILIES["nullable-u"] = lambda rr: pool.fam_nullable(rr, unicode_names=True)
         s = pool.make_scenario(r, [fam])
+        s["family"] = fam
         probes = [pool.gen_input(r, s, version=0, p_damage=0.3)[0] for _ in range(5)]
         out.append((fam, {"versions": [{"g.pg": s["texts"][0]}], "pge": gen_pge(r, s),
                           "recognizers": s["recognizers"][:1], "probes": probes}))
